@@ -48,7 +48,7 @@ def texts(rng, n, seps, heads=()):
     """mostly well-formed texts built from the atoms, a quarter broken or mutated"""
     out = ["", " ", ",", ", ,", "a", " a ", "a,b", "a , b", "(a,b),c", "a,(b,c)", "'a,b',c", "f(x)", " f ( x ) ", "f(x) ", "f(x)y", "(x)", "f((x))",
            "f(x)(y)", "f(a, b)%g(c)", "a%b%c", "a % b", "a:b", "a : b : c", "(a:b):c", "'a:b':c", ": ", " :", "k=v", "k = v", " k= v=w", "=v", "k=",
-           "k=='a'", "f(1.0e-3)", "f( 1e5 )", "f(1e5, 2)", "( n ),( m )", "a(:), b(1:2)", "f('(')", 'f(")")', "f('a''b, c')"]
+           "k=='a'", "f(1.0e-3)", "'a b'(1:2)", '"it""s"(2:3)', "k_'x y'(1:1)", "'a(b'(1:2)", "a(i+1)(2:3)", "'p q' (1:2)", "f( 1e5 )", "f(1e5, 2)", "( n ),( m )", "a(:), b(1:2)", "f('(')", 'f(")")', "f('a''b, c')"]
     for h in heads:
         out += [h + "(a)", h.lower() + " (a, b)", h + "()", h + " ( )", h + "x(a)", " " + h + "(a) ", h, h + "(a", h + "(a))", h + "((a), b)",
                 h.capitalize() + "(unit=1, file='a,b')"]
@@ -64,7 +64,8 @@ def texts(rng, n, seps, heads=()):
         if r < 0.25:
             s = rng.choice(BLANKS) + s + rng.choice(BLANKS)
         elif r < 0.40:
-            s = rng.choice(["f", "open", "a%b", "x y", ""] + list(heads)) + rng.choice(BLANKS) + "(" + s + ")" + rng.choice(BLANKS)
+            hd = rng.choice(["f", "open", "a%b", "x y", ""] + list(heads)) if rng.random() < 0.6 else rng.choice(ATOMS)
+            s = hd + rng.choice(BLANKS) + "(" + s + ")" + rng.choice(BLANKS)
         elif r < 0.55:
             for _ in range(rng.randrange(1, 3)):
                 s = _mut(rng, s)
